@@ -727,3 +727,56 @@ Proof.
   unfold rr, qsum. induction zs as [|z zs IH]; intros [|K Ks] V; cbn [vscale map map2 fold_right]; try ring.
   rewrite IH. unfold rr_term. unfold Qdiv. ring.
 Qed.
+
+(* ------------------------------------------------------------------ the memoised equilibrium objects of VLE._setup *)
+Lemma list_eqb_nat_eq a : forall b, list_eqb Nat.eqb a b = true -> a = b.
+Proof.
+  induction a as [|x a IH]; intros [|y b] H; simpl in H; try discriminate; auto.
+  apply andb_prop in H. destruct H as (A & B). apply Nat.eqb_eq in A. f_equal; auto.
+Qed.
+Lemma key_eqb_eq (a b : C08.Model.key) : C08.Model.key_eqb a b = true -> a = b.
+Proof.
+  destruct a as [[[ca ga] pa] fa], b as [[[cb gb] pb] fb]. unfold C08.Model.key_eqb. intros H.
+  apply andb_prop in H. destruct H as (H & F). apply andb_prop in H. destruct H as (H & P).
+  apply andb_prop in H. destruct H as (C & G).
+  apply list_eqb_nat_eq in C. apply Nat.eqb_eq in G. apply Nat.eqb_eq in P. apply Nat.eqb_eq in F. subst. reflexivity.
+Qed.
+
+Section CacheCoherent.
+Context {A : Type} (build : C08.Model.key -> res A).
+Definition cache_ok (c : C08.Model.cache A) : Prop :=
+  forall k v, C08.Model.cache_find c k = Some v -> build k = Ok (snd v).
+
+Lemma cache_new_ok st k : cache_ok (fst st) -> cache_ok (fst (snd (C08.Model.cache_new build st k))).
+Proof.
+  intros OK. unfold C08.Model.cache_new.
+  destruct (C08.Model.cache_find (fst st) k) as [v|] eqn:E; [exact OK|].
+  destruct (build k) as [a|e] eqn:B; [|exact OK].
+  cbn [fst snd]. intros k' v' H. cbn [C08.Model.cache_find] in H.
+  destruct (C08.Model.key_eqb k' k) eqn:K.
+  - apply key_eqb_eq in K. subst k'. inversion H; subst. exact B.
+  - apply OK. exact H.
+Qed.
+
+Lemma cache_run_ok ks : forall st, cache_ok (fst st) -> cache_ok (fst (snd (C08.Model.cache_run build st ks))).
+Proof.
+  induction ks as [|k t IH]; intros st OK; cbn [C08.Model.cache_run]; [exact OK|].
+  cbn [snd]. apply IH. apply cache_new_ok. exact OK.
+Qed.
+
+Lemma cache_new_coherent ks k i a :
+  fst (C08.Model.cache_new build (snd (C08.Model.cache_run build ([], 0%nat) ks)) k) = Ok (i, a) -> build k = Ok a.
+Proof.
+  pose proof (cache_run_ok ks ([], 0%nat)) as OK.
+  assert (O0 : cache_ok (fst (([] : C08.Model.cache A), 0%nat))) by (intros k' v' H; discriminate).
+  specialize (OK O0). unfold C08.Model.cache_new.
+  destruct (C08.Model.cache_find _ k) as [v|] eqn:E.
+  - cbn [fst]. intros H. inversion H; subst. apply OK in E. exact E.
+  - destruct (build k) as [a'|e] eqn:B; cbn [fst]; intros H; inversion H; subst. reflexivity.
+Qed.
+End CacheCoherent.
+
+Lemma setup_gamma_lemma ks cs g p f i a :
+  fst (C08.Model.cache_new eq_build (snd (C08.Model.cache_run eq_build ([], 0%nat) ks)) (cs, g, p, f)) = Ok (i, a) ->
+  a = (g, p, f).
+Proof. intros H. apply cache_new_coherent in H. cbn [eq_build] in H. inversion H. reflexivity. Qed.
